@@ -47,8 +47,17 @@ def gen_history(rng, maxops):
         elif r < 0.78: ops.append("Q %d %d" % (d, a if rng.random() < 0.8 else d))
         elif r < 0.81: ops.append("X %d" % d)
         elif r < 0.89: ops.append("D %d %d" % (a, b if rng.random() < 0.85 else a))
-        elif r < 0.95:
+        elif r < 0.92:
             s = rset(); ops.append("T %d %d %s" % (a, len(s), " ".join(map(str, s))))
+        elif r < 0.95:
+            # a vector with one or two ones against an index set more than 32 times larger that contains them as its largest / smallest / inner elements
+            # (size-ratio shortcuts in the product; seeded change C01/r7m2)
+            DD = max(D, 70)
+            big = sorted(rng.sample(range(DD), rng.randint(40, min(DD, 130))))
+            pick = [big[-1]] if rng.random() < 0.4 else [big[0]] if rng.random() < 0.3 else rng.sample(big, rng.choice([1, 2]))
+            ops.append("S %d %d %s" % (a, len(pick), " ".join(map(str, pick))))
+            if rng.random() < 0.5: big = [x for x in big if x != pick[0]] + ([pick[0]] if rng.random() < 0.7 else [])
+            ops.append("T %d %d %s" % (a, len(big), " ".join(map(str, big))))
         else: ops.append("Z %d" % a)
     return K, D, ops
 
